@@ -20,8 +20,9 @@ replaced by recorders: "blocked" then means that no connection attempt was made 
 Oracle (independent classification, lib-free integer arithmetic):
  * "denotes own socket" (=> `server.error` must be set): same port, transport equal or the mode listens on both, and
    - destination IP (IPv4-mapped forms count as their IPv4 address, any textual spelling) equals the listen IP, or
-   - listening on 0.0.0.0 and the destination is any 127.0.0.0/8 address or 0.0.0.0; listening on :: and the destination
-     is ::1 or ::, or
+   - listening on 0.0.0.0 and the destination is any 127.0.0.0/8 address; listening on :: and the destination is ::1, or
+   - the destination is an unspecified ("wildcard") address in any spelling (0.0.0.0, ::, ::ffff:0.0.0.0), whatever the
+     listener is bound to ("or the wildcard address itself"), or
    - the destination is the name localhost (any case, optional trailing dot) and the server listens on a loopback or
      wildcard address;
  * "unrelated" (=> `server.error` must stay unset): the port is not a listen port, or the host is a public name/address;
@@ -35,7 +36,7 @@ from runner import HarnessError, hyp
 PID = "C23"
 LEVEL = "exploration"
 TECHNIQUE = "exhaustive enumeration over destination spelling classes x listen configurations + Hypothesis random configurations"
-RULE = ("7 listen hosts x 9 modes x 48 destination spellings x 2 ports x 2 transports enumerated completely, plus random "
+RULE = ("7 listen hosts x 9 modes x 51 destination spellings x 2 ports x 2 transports enumerated completely, plus random "
         "two-server configurations and random loopback/other addresses; non-trivial = destination that denotes a listening "
         "socket, or shares the port with one; distinct by (configuration, destination)")
 ASSUMPTIONS = [
@@ -59,7 +60,7 @@ DESTS = [
     "126.255.255.255", "128.0.0.0",
     "::1", "0:0:0:0:0:0:0:1", "0000:0000:0000:0000:0000:0000:0000:0001", "::0001",
     "::ffff:127.0.0.1", "::ffff:7f00:1", "::FFFF:127.0.0.1", "0:0:0:0:0:ffff:127.0.0.2", "::ffff:127.9.9.9",
-    "0.0.0.0", "::", "0:0:0:0:0:0:0:0", "::0",
+    "0.0.0.0", "::", "0:0:0:0:0:0:0:0", "::0", "::ffff:0.0.0.0", "::ffff:0:0", "0000:0000:0000:0000:0000:0000:0000:0000",
     "192.168.1.5", "::ffff:192.168.1.5", "::ffff:c0a8:105", "192.168.1.6", "192.168.01.5x",
     "fd00::5", "fd00:0:0:0:0:0:0:5", "FD00::5", "fd00:0000::0005", "fd00::6",
     "example.test", "localhost.example.test", "notlocalhost", "localhost6x", "93.184.216.34", "2606:4700::1111",
@@ -151,8 +152,11 @@ def relation(dest_host, listen_host):
         return "denotes"
     if d[0] == l[0] and l_wild and (d_loop or d_wild):
         return "denotes"
-    if d_loop or d_wild:
-        # other loopback address than the one bound, other family, wildcard spelled for a specific listener, or a
+    if d_wild:
+        # "or the wildcard address itself" (property text): whatever the listener is bound to
+        return "denotes"
+    if d_loop:
+        # other loopback address than the one bound, other family, or a
         # loopback destination while listening on a LAN address only
         return "unspecified"
     return "no"
